@@ -324,6 +324,21 @@ def check_C19(chk: Check, replay) -> None:
     if not tlc.tlc_ok(res):
         raise Machinery(f"MC_Registry_live failed:\n{res['out'][-2000:]}")
     chk.add_tlc("Registry/MC_Registry_live.cfg", res)
+    # ---- classes that come and go (ClassChurn.tla): the design and a weak memo hold, a memo keyed by the
+    # address of an object that may have died must give a counterexample (fail, collect, reuse)
+    CH = ["Define", "Look", "FailBuild", "FinishBuild", "Collect", "ClearCache"]
+    for cfg, must_fail in (("MC_ClassChurn_none.cfg", False), ("MC_ClassChurn_weak.cfg", False),
+                           ("MC_ClassChurn_id.cfg", True)):
+        res = tlc.run_tlc("ClassChurn", cfg=cfg, workers=4, timeout=1800, xmx="4g", coverage=not must_fail)
+        violated = "Invariant ClassifiedByDescription is violated" in res["out"]
+        if must_fail and not violated:
+            raise Machinery(f"{cfg}: TLC found no counterexample for a memo keyed by a dead object's address:\n"
+                            f"{res['out'][-1200:]}")
+        if not must_fail:
+            if not tlc.tlc_ok(res):
+                raise Machinery(f"{cfg} failed:\n{res['out'][-2000:]}")
+            tlc.require_actions(res, CH, f"ClassChurn/{cfg}")
+        chk.add_tlc(f"ClassChurn/{cfg}", res)
     hists = sim_histories(chk, 400 if thorough else 60)
     history_core(chk, thorough, hists, None)
 
